@@ -13,6 +13,14 @@ byte orders.  Context-dependent ranges (a QuantizedFloatBase subclass without it
 mantissas; quick = every 16th exponent x 2 mantissas, thorough = every exponent x 4 mantissas).  The vectorised
 QuantizedNumPyArray is evaluated on the full ``arange`` of its dtype.
 
+Reader modes: every clause below is evaluated twice per site -- ``pod=False`` and ``pod=True`` (``decode(raw, ctx, pod)``
+and ``BufferReader(endian, data, pod)``).  A pod failure identical in (clause, raw, duration) to a non-pod failure of the same
+instance is one root cause and stays at the base site; pod-specific failures are reported under ``<site>:pod``.
+Vector wrappers (every ``EncodedTupleCoord`` instance found by the same walk: Vector3U16(..), Vector4U8(..),
+FixedPointVector3U16(..), ... as used by the ObjectUpdate HALF/LOW, ImprovedTerse and animation templates) are swept through
+the wire path with each raw value in all components, in both modes (pod reads give tuples); site
+``Vector3U16[<element site>]``; a failure an element shows on its own is left to the element's site.
+
 Clauses (site = the parameterisation):
   inverse     encode(decode(raw)) == raw for every raw (direct and wire path); decode returns a float and never raises
   monotonic   decode(raw+1) > decode(raw); equality only for the -0.0 / +0.0 pair of a zero-preserving code
